@@ -142,8 +142,10 @@ PROPS = {
         "vx_search": {"bin": "c03_search_builder_sequences", "crate": "replay", "release": True,
                       "what": "all octet strings of at most 6 octets over {0,1,2,63,64,'a'} through Name/RelativeName::from_slice against a "
                               "reference checker, and all NameBuilder operation sequences of at most 5 steps over sizes that reach the "
-                              "63/254/255 limits (the open finding D5 is not judged) -- run only to find a concrete input for a failed "
-                              "Verus obligation"},
+                              "63/254/255 limits (the open finding D5 is not judged); 735 valid relative names (all label layouts of at most 5 "
+                              "octets, labels whose content looks like the wire form of another name) and their absolute forms through truncate, "
+                              "split, range, slice, slice_from, range_from, is_label_start at every index, split_first, strip_suffix / ends_with "
+                              "against every other such name, chain, into_absolute / into_relative -- against reference functions, on the real crate"},
         "kani": [
             {"group": "g0", "name": "c06_label_octet_display_roundtrip", "kind": "complete", "tier": "quick", "timeout": 400,
              "what": "'converting a name to presentation text and back yields an equal name', per octet: for every octet as a "
@@ -163,9 +165,14 @@ PROPS = {
                        "append_slice, end_label, append_label, append_dec_u8_label, finish, into_name} preserve the representation "
                        "invariant nb_wf (closed labels form a relative name, open label 1..=63 octets, total <= 254), every error "
                        "leaves octets and open-label state unchanged, finish() yields a valid RelativeName and into_name() a valid "
-                       "Name (lemmas rel_snoc_label, rel_plus_root_is_abs). ParsedName validity: see C01 (nameparse).",
+                       "Name (lemmas rel_snoc_label, rel_plus_root_is_abs). ParsedName validity: see C01 (nameparse). Slicing and truncation "
+                       "(unit namecheck, real text): Name::{is_label_start, check_index, slice_from, split, range_from} and "
+                       "RelativeName::{is_label_start, check_index, split, truncate, strip_suffix}: a position is accepted exactly when it "
+                       "is the start of a label (or the end of a relative name), the documented panic otherwise; the parts handed out are "
+                       "valid names holding exactly the octets before / behind the position; strip_suffix succeeds exactly when the base is a "
+                       "label-wise suffix, cuts off exactly its octets and leaves a valid name, and leaves the name alone when it refuses.",
         "not_covered": "Presentation-text round trip (Display/FromStr: core::fmt and char iterators), append_name/append_origin/"
-                       "append_symbols (label iterators), Chain, UncertainName, slicing/truncation of Name/RelativeName, "
+                       "append_symbols (label iterators), Chain beyond its length check, UncertainName, slice/range with general RangeBounds and Name::{truncate, strip_suffix} (searched natively only), "
                        "zonefile::inplace name conversion. Builders that refuse to grow (ShortBuf) are outside the contracts (D13).",
         "assumptions": [
             "OctetsBuilder + AsRef<[u8]> + AsMut<[u8]> are modelled by one prelude trait (append_slice appends or fails unchanged; as_mut keeps the length)",
